@@ -150,13 +150,35 @@ def run(ctx):
                         except Exception as e:
                             ctx.violation('C17 MolecularData.get_molecular_hamiltonian(occupied, active) raised %s: %s' % (type(e).__name__, e), {'occupied': list(occ), 'active': list(act)})
                         # and agreement with freeze_orbitals on the fermion operator
-                        fo = freeze_orbitals(of.get_fermion_operator(of.InteractionOperator(nuc, one, 0.5 * two)), [2 * j + s for j in occ for s in (0, 1)], [2 * j + s for j in virt for s in (0, 1)] or None, prune=True)
+                        occ_so = [2 * j + s for j in occ for s in (0, 1)]; virt_so = [2 * j + s for j in virt for s in (0, 1)]
+                        if rng.random() < 0.6:
+                            # the documented arguments are plain lists of spin orbitals: any order (e.g. all spin-up first)
+                            occ_so = [2 * j for j in occ] + [2 * j + 1 for j in occ] if rng.random() < 0.5 else rng.sample(occ_so, len(occ_so))
+                            virt_so = rng.sample(virt_so, len(virt_so))
+                        fo = freeze_orbitals(of.get_fermion_operator(of.InteractionOperator(nuc, one, 0.5 * two)), occ_so, virt_so or None, prune=True)
                         if m == len(rest) or True:
                             used = sorted({jj for t in fo.terms for jj, _ in t})
                             # pruning compacts only used indices; compare when every active spin orbital is used
                             if len(used) == 2 * m and exact_terms_ok(fo.terms, lo=30):
                                 add('active_space_vs_freeze_orbitals', '(fermi_equiv %s %s)' % (coq_fop(fo), coq_fop_terms(active)),
                                     {'call': 'freeze_orbitals vs active-space Hamiltonian', 'occupied': list(occ), 'active': list(act)}, key=('f', repr((h.tolist(), eri.tolist())), occ, act))
+    # ---- four spatial orbitals with interleaved core and active orbitals (core {0,2} or {1}, active orbitals between and above):
+    #      freeze_orbitals with its orbital lists in any order against the active-space Hamiltonian
+    for i in range(N(2, 10)):
+        n = 4; h = rand_h(n); eri = rand_eri(rng, n); nuc = float(dy(rng))
+        one, two = spinorb_from_spatial(h, eri)
+        occ, act = rng.choice([((0, 2), (1, 3)), ((1,), (0, 3)), ((0, 2), (1,)), ((2,), (0, 1, 3))])
+        virt = [j for j in range(n) if j not in occ and j not in act]
+        core, h_a, eri_a = get_active_space_integrals(h, eri, list(occ), list(act))
+        o_a, t_a = spinorb_from_spatial(h_a, eri_a)
+        active = spec_poly({(): nuc + core, (1, 0): o_a, (1, 1, 0, 0): 0.5 * t_a})
+        occ_so = [2 * j for j in occ] + [2 * j + 1 for j in occ]; virt_so = [2 * j + s for j in virt for s in (1, 0)]
+        if rng.random() < 0.5: occ_so = occ_so[::-1]
+        fo = freeze_orbitals(of.get_fermion_operator(of.InteractionOperator(nuc, one, 0.5 * two)), list(occ_so), list(virt_so) or None, prune=True)
+        used = sorted({jj for t in fo.terms for jj, _ in t})
+        if len(used) == 2 * len(act) and exact_terms_ok(fo.terms, lo=30) and exact_terms_ok(active, lo=30):
+            add('active_space_vs_freeze_orbitals', '(fermi_equiv %s %s)' % (coq_fop(fo), coq_fop_terms(active)),
+                {'call': 'freeze_orbitals vs active-space Hamiltonian (4 spatial orbitals)', 'occupied': list(occ_so), 'unoccupied': list(virt_so), 'one_body': h.tolist(), 'eri': repr(eri.tolist())}, key=('f4', repr((h.tolist(), eri.tolist())), occ, act))
     # ---- RDMs of random N-particle states (numerical, supporting): expectations and mapping functions
     from openfermion.utils import rdm_mapping_functions as rm
     for i in range(N(10, 60)):
